@@ -20,7 +20,7 @@ pub open spec fn consts_match<B: BlockProvider, N: NotificationService, P: Payme
 //@ implicit [C06]
 //@ requires#hash
       trampoline.invoice.hash_spec() == old(w).hash
-//@ requires#no_lock
+//@ requires#no_lock [C06,C07,C09,C11,C12,C13,C14]
       !old(w).lock_held
 //@ requires#exactly_once [C06,C07]
       !old(w).released && old(w).resolved is None
@@ -71,7 +71,7 @@ pub open spec fn consts_match<B: BlockProvider, N: NotificationService, P: Payme
       final(w).released && final(w).resolved is Some
 //@ ensures#inv [C08]
       inv(*final(w))
-//@ ensures#no_rpc_under_lock [C14,C06]
+//@ ensures#no_rpc_under_lock [C14,C06,C11]
       !final(w).rpc_under_lock
 //@ ensures#paid_invoice_is_never_paid_again [C05]
       store_of(*old(w)) is Succeeded ==> !final(w).attempted
